@@ -42,13 +42,28 @@ def run(pid, rep, tier, seed, replay=None, n_quick=600, n_thorough=12000):
     rnd = random.Random(seed)
     per = max(150, (n_quick if tier == "quick" else n_thorough) // max(1, len(fams)))
     valids = []
+    import importlib
     for f in fams:
         vs = netprops.valid_cases(f, seed, per)
         rep.count("family:" + f, len(vs))
+        # cases inside the domain of the family's whole-query theorem (generator tag THM, when it prints one)
+        if any("THM" in v.tags for v in vs):
+            rep.count("theorem-domain:" + f, sum(1 for v in vs if v.tags.get("THM") == "1"))
         valids += vs
+        # optional family hook: further valid exchanges derived from the generated ones (same expected response)
+        fmod = importlib.import_module("props.families." + f)
+        if hasattr(fmod, "decode_variants"):
+            extra = [x for v in vs for x in fmod.decode_variants(v, rnd)]
+            rep.count("variants:" + f, len(extra))
+            for x in extra:
+                x.variant = True
+            valids += extra
     cases = netprops.corpus(pid) + [v.line for v in valids]
     vlib.correspond(rep, cases, oracle=want_oracle(valids, rep), trivial=netprops.trivial, tag=tag)
     hostile = []
+    # variants are not mutated: their model-side oracle tables (e.g. bzip2: compressed -> reply) say nothing about
+    # what the real external decoder does with a corrupted stream
+    valids = [v for v in valids if not getattr(v, "variant", False)]
     rnd.shuffle(valids)
     for k, v in enumerate(valids[: len(valids) // 2]):
         c, what = netcases.mutate(v.case(), rnd)
